@@ -187,7 +187,11 @@ def check_case(prog, env, pid, want_schedules=True, forms=None, sched_cap=48):
             if r1.exc is not None or second in s.forms:
                 continue
             try:
-                v2 = s.solve([second])
+                with world.cpu_limit():
+                    v2 = s.solve([second])
+            except world.NonTermination as e:
+                viols.append(('second-call:non-termination', f'solve([{first}]) then solve([{second}]): {e}', None))
+                continue
             except Exception:
                 continue            # an abort is an allowed outcome
             cnt['executions'] += 1
@@ -211,7 +215,8 @@ def check_case(prog, env, pid, want_schedules=True, forms=None, sched_cap=48):
                 for name in declined:
                     rs.store[name] = 'yes' if name.endswith('.p') else '1'
                 n0 = len(rs.prompts)
-                rs.solver.solve(['a'])
+                with world.cpu_limit():
+                    rs.solver.solve(['a'])
                 cnt['executions'] += 1
                 again = [p[0] for p in rs.prompts[n0:] if p[0] in declined]
                 if again:
